@@ -163,6 +163,23 @@ def run(tier):
         run.extra['real_step_classes'] = kinds
     except Exception as e:  # noqa
         run.error('step laws crashed: %r' % e)
+    # ---- constants of every value kind, bare and inside trees / steps / plans (concrete, stated)
+    try:
+        n, pr, nv, forms = c18lib.value_laws()
+        run.validated += n
+        seen_cls = set()
+        for p_ in pr:
+            cls_ = re.sub(r"holding .*?( is | prints | compare |: ==)", r'holding # \1', p_)[:90]
+            cls_ = re.sub(r'[^A-Za-z# =()-]+', '', cls_)
+            if cls_ in seen_cls:
+                continue
+            seen_cls.add(cls_)
+            if len(seen_cls) <= 6:
+                run.counterexample('value-equality:%s' % cls_, p_[:400], {'value_laws': p_[:600]}, True)
+        run.ob('value-kinds:equality-and-copy-laws:%d values x %d forms' % (nv, len(forms)), 'counterexample' if pr else 'discharged', '%d comparisons, %d problems' % (n, len(pr)))
+    except Exception as e:  # noqa
+        import traceback
+        run.error('value laws crashed: %r %s' % (e, traceback.format_exc()[-300:]))
     run.assumptions.append('parsed-tree family is concrete execution over trees parsed from grammar-derived sentences (production pairs); quick tier takes every 4th mindsdb tree')
     run.finish()
 
